@@ -572,6 +572,11 @@ func (e *Env) call(n *ECall) EVal {
 		}
 		t := e.s.P.resolveType(e.pkg, tstr)
 		return EVal{T: IntLit(int64(e.s.P.tagOf(t))), Ty: intT}
+	case "tostring":
+		// string(b) for a byte slice b (the conversion function the code uses)
+		x := e.eval(n.Args[0])
+		e.s.D.Fun("conv_Slice_to_string", []Sort{SSlice}, SStr)
+		return EVal{T: mk(SStr, "conv_Slice_to_string", x.T), Ty: types.Typ[types.String]}
 	case "substr":
 		x, lo, hi := e.eval(n.Args[0]), e.eval(n.Args[1]), e.eval(n.Args[2])
 		e.s.D.Fun("substr", []Sort{SStr, SInt, SInt}, SStr)
